@@ -30,6 +30,12 @@ def gen_configs(ctx, n, threads=(1, 2, 3, 4), ckpts=(1, 2, 3, 7, 0), big=False, 
             "stay": rnd.choice([0, 2, 3]), "pseed": rnd.randrange(1, 1 << 40),
             "budget": 1500000,
         }
+        if rnd.randrange(8) == 0:
+            # some LPs satisfy their predicate already at LP_INIT (threshold 0) and are rolled back later like any other LP
+            c.update({"thr": 0, "spread": rnd.choice([2, 3, 6, 40])})
+        elif rnd.randrange(6) == 0:
+            # every 2nd/3rd LP is "done" from the start (threshold 0) and keeps being rolled back by the traffic of the others
+            c["spread"] = rnd.choice([2000, 3000]) + rnd.choice([0, 10, 30])
         if tterm:
             c["tterm"] = rnd.choice([40, 100, 400])
         if fossil_heavy:
@@ -404,6 +410,10 @@ def peer_configs(ctx, n, salt=0):
             "pspread": rnd.choice([4, 16, 40]), "page": rnd.choice([10, 40, 200]), "pspan": rnd.choice([30, 400]),
             "pwin": rnd.choice([8, 24, 100]),
         }
+        if i % 7 == 3:
+            c.update({"thr": 0, "spread": rnd.choice([2, 3, 6, 40])})  # predicates already true at LP_INIT for some LPs
+        if i % 7 == 5:
+            c["spread"] = rnd.choice([2000, 3000]) + rnd.choice([0, 10, 30])  # every 2nd/3rd LP done from the start
         if i % 5 == 4:
             # early-frozen LPs whose history is emptied again and again: the next remote event lands in slot 0
             c.update({"thr": 20, "spread": rnd.choice([0, 5]), "ckpt": rnd.choice([1, 2]), "period": 0, "batch": rnd.choice([2, 4]),
@@ -556,3 +566,42 @@ def oracle_search(ctx, cfgs, keys, mode="par", jobs=12, label="oracle_search"):
                 found += 1
     ctx.coverage[label] = {"runs": runs, "witnesses": found}
     return found
+
+
+def tw_matrix(ctx, n_quick, n_thorough, salt=0, jobs=12):
+    """Refinement check against the abstract global Time Warp machine (Model/TimeWarp.lean; theorems Props/C01Glue.lean): small
+    single-rank scheduled runs whose re-execution ALSO steps the abstract machine (`twshadow`): every process_msg of the real run
+    must be an enabled abstract action (exec / annihilate / antiRollback), the abstract history of the LP must equal the concrete
+    one afterwards, and every GVT value told to a thread must be a lower bound of the abstract pending messages and
+    anti-messages (the hypothesis of C01Glue.reachable_hist). Cost is quadratic in the history length, hence small runs."""
+    import concurrent.futures
+    if not build(ctx):
+        return None
+    rnd = random.Random(ctx.seed * 4447 + 3 + salt)
+    n = n_quick if ctx.tier == "quick" else n_thorough
+    cfgs = []
+    for i in range(n):
+        c = gen_configs(ctx, 1)[0]
+        c.update({"seed": rnd.randrange(1, 1 << 30), "mseed": rnd.randrange(1, 1 << 30), "tw": 1,
+                  "lps": rnd.choice([2, 3, 4, 5, 6]), "thr": rnd.choice([10, 25, 40, 80]), "spread": rnd.choice([0, 10, 30, 2010]),
+                  "threads": rnd.choice([1, 2, 3, 4]), "ckpt": rnd.choice([1, 2, 3, 7, 0]), "period": rnd.choice([0, 0, 10, 1000]),
+                  "batch": rnd.choice([0, 2, 4, 8]), "burst": rnd.choice([0, 5, 20, 60, 200]), "mem": rnd.choice([0, 0, 1]),
+                  "t0": rnd.choice([0, 1]), "budget": 1500000})
+        c.pop("tterm", None)
+        c.pop("skew", None)
+        cfgs.append(c)
+    agg = Agg()
+    with concurrent.futures.ThreadPoolExecutor(max_workers=jobs) as ex:
+        for r in ex.map(lambda ic: run_one(ctx, "par", ic[1], "tw%d" % ic[0]), enumerate(cfgs)):
+            agg.add(r)
+    ctx.oblige("refinement:abstract Time Warp machine (C01Glue) shadows %d real runs: every process_msg is an enabled abstract action, "
+               "histories agree after every step, every adopted GVT is a lower bound of the abstract pending set (%d trace lines, %d "
+               "forward steps, %d rollbacks, %d GVT values)" % (agg.runs, agg.lines, agg.tot.get("fwd", 0), agg.tot.get("rollbacks", 0),
+                                                              agg.tot.get("gvt", 0)),
+               not agg.divs, json.dumps({"cfg": agg.divs[0]["cfg"], "div": agg.divs[0]["div"]}) if agg.divs else "")
+    for r in agg.crashes[:2]:
+        ctx.violation("runtime-crash", {"cfg": r["cfg"], "output": r["out"][-500:]}, True)
+    ctx.coverage["abstract_time_warp_shadow"] = {"runs": agg.runs, "trace_lines": agg.lines, "forward_steps": agg.tot.get("fwd", 0),
+                                                 "rollbacks": agg.tot.get("rollbacks", 0), "anti_messages": agg.tot.get("antis", 0),
+                                                 "gvt_values_checked": agg.tot.get("gvt", 0), "outcomes": agg.outcomes}
+    return agg
